@@ -35,7 +35,7 @@ use std::task::{Context, Poll};
 /// (`Fault.readCorrupt`: any body that does not parse is skipped) describes the repaired code.
 /// Set to `true` once /repo has the fix (branch fixes-stream-2, e3c4c78): the cases are then
 /// compared with the model as `corrupt` reads.
-pub const PARTIAL_DECODE_SKIPS: bool = false;
+pub const PARTIAL_DECODE_SKIPS: bool = true;
 
 #[derive(Clone, Copy, Debug, PartialEq, Eq, PartialOrd, Ord)]
 pub enum Fault {
